@@ -750,8 +750,11 @@ def _garbage_item(draw):
     return item
 
 
-def _garbage_cases(batch):
-    return st.fixed_dictionaries({"items": st.lists(_garbage_item(), min_size=batch, max_size=batch)})
+@st.composite
+def _garbage_cases(draw, batch):
+    # almost always a full batch (one fork per batch); the size shrinks to 1 for a minimal replay
+    n = draw(st.sampled_from([1] + [batch] * 15))
+    return {"items": [draw(_garbage_item()) for _ in range(n)]}
 
 
 def _wds_valid_cases():
